@@ -1,2 +1,123 @@
-(* C03 - placeholder while the proofs are being written *)
-Require Import GenEn.
+(* C03 - English combinatory rules are sound (and complete on identical matched parts).  Property theorems only.
+   The combinators `GenEn.combinators` / `GenEn.apply_binary_rules` are regenerated from depccg/grammar/en.py on every
+   run (translate/gen_grammar.py); the schemata `Justified_en` are in EnSpec.v; the proofs in EnSound.v.
+   `kc` erases the feature names of GenEn.key_clear - the rules see the categories with 'nb' erased. *)
+From Coq Require Import List NArith Bool.
+Import ListNotations.
+Require Import Cat CatFacts Unify GramPrims GenTables GenEn EnSpec EnLemmas EnSound.
+Open Scope N_scope.
+
+Notation kc := (clear_features GenEn.key_clear).
+
+(* every result is an instance of the schema its label names *)
+Theorem C03_en_sound : forall x y rs r, wf puncts x -> wf puncts y -> one_system x y ->
+  GenEn.apply_binary_rules x y None = Ok_ rs -> In r rs -> Justified_en r (kc x) (kc y).
+Proof. exact en_sound. Qed.
+
+(* the head is always the left child *)
+Theorem C03_en_head_left : forall x y rs r, wf puncts x -> wf puncts y -> one_system x y ->
+  GenEn.apply_binary_rules x y None = Ok_ rs -> In r rs -> head_is_left r = true.
+Proof. exact en_head_left. Qed.
+
+(* no result labelled bx / gbx when the composed-over category (the argument of the right functor) is a bare N or NP *)
+Theorem C03_bx_never_over_N_NP : forall x y rs r, wf puncts x -> wf puncts y -> one_system x y ->
+  GenEn.apply_binary_rules x y None = Ok_ rs -> In r rs -> op_string r = l_bx \/ op_string r = l_gbx ->
+  forall a s b, kc y = Fun a s b -> ~ bare_N_NP b.
+Proof. exact bx_never_over_N_NP. Qed.
+
+(* conversely: a schema whose premises hold with identical matched parts yields its result.
+   (A modifier functor returns the other category itself, so the result keeps that category's slashes.) *)
+Theorem C03_en_complete_fa : forall a s b, wf puncts (Fun a s b) -> unary_sys (Fun a s b) -> fwd s ->
+  exists rs r, GenEn.apply_binary_rules (Fun a s b) b None = Ok_ rs /\ In r rs /\ rcat r = kc a /\ labelled r l_fa y_fa.
+Proof. exact en_complete_fa. Qed.
+
+Theorem C03_en_complete_ba : forall a s b, wf puncts (Fun a s b) -> unary_sys (Fun a s b) -> bwd s ->
+  exists rs r, GenEn.apply_binary_rules b (Fun a s b) None = Ok_ rs /\ In r rs /\ rcat r = kc a /\ labelled r l_ba y_ba.
+Proof. exact en_complete_ba. Qed.
+
+Theorem C03_en_complete_fc : forall a s1 b s2 c, wf puncts (Fun a s1 b) -> wf puncts (Fun b s2 c) ->
+  unary_sys (Fun a s1 b) -> unary_sys (Fun b s2 c) -> fwd s1 -> fwd s2 ->
+  exists rs r, GenEn.apply_binary_rules (Fun a s1 b) (Fun b s2 c) None = Ok_ rs /\ In r rs /\
+               rcat r = (if cat_eqb (kc a) (kc b) then Fun (kc b) s2 (kc c) else Fun (kc a) sl (kc c)) /\ labelled r l_fc y_fc.
+Proof. exact en_complete_fc. Qed.
+
+Theorem C03_en_complete_bx : forall b s1 c a s2, wf puncts (Fun b s1 c) -> wf puncts (Fun a s2 b) ->
+  unary_sys (Fun b s1 c) -> unary_sys (Fun a s2 b) -> fwd s1 -> bwd s2 -> ~ bare_N_NP (kc b) ->
+  exists rs r, GenEn.apply_binary_rules (Fun b s1 c) (Fun a s2 b) None = Ok_ rs /\ In r rs /\
+               rcat r = (if cat_eqb (kc a) (kc b) then Fun (kc b) s1 (kc c) else Fun (kc a) sl (kc c)) /\ labelled r l_bx y_bx.
+Proof. exact en_complete_bx. Qed.
+
+Theorem C03_en_complete_gfc : forall a s1 b s2 c s3 d, wf puncts (Fun a s1 b) -> wf puncts (Fun (Fun b s2 c) s3 d) ->
+  unary_sys (Fun a s1 b) -> unary_sys (Fun (Fun b s2 c) s3 d) -> fwd s1 -> fwd s2 ->
+  exists rs r, GenEn.apply_binary_rules (Fun a s1 b) (Fun (Fun b s2 c) s3 d) None = Ok_ rs /\ In r rs /\
+               rcat r = (if cat_eqb (kc a) (kc b) then Fun (Fun (kc b) s2 (kc c)) s3 (kc d) else Fun (Fun (kc a) sl (kc c)) s3 (kc d)) /\
+               labelled r l_gfc y_fc.
+Proof. exact en_complete_gfc. Qed.
+
+Theorem C03_en_complete_gbx : forall b s1 c s3 d a s2, wf puncts (Fun (Fun b s1 c) s3 d) -> wf puncts (Fun a s2 b) ->
+  unary_sys (Fun (Fun b s1 c) s3 d) -> unary_sys (Fun a s2 b) -> fwd s1 -> bwd s2 -> ~ bare_N_NP (kc b) ->
+  exists rs r, GenEn.apply_binary_rules (Fun (Fun b s1 c) s3 d) (Fun a s2 b) None = Ok_ rs /\ In r rs /\
+               rcat r = (if cat_eqb (kc a) (kc b) then Fun (Fun (kc b) s1 (kc c)) s3 (kc d) else Fun (Fun (kc a) sl (kc c)) s3 (kc d)) /\
+               labelled r l_gbx y_bx.
+Proof. exact en_complete_gbx. Qed.
+
+Theorem C03_en_complete_conj : forall x y, wf puncts y -> unary_sys y -> In x [c_comma; c_semi; c_conj] ->
+  ~ punct_cat (kc y) -> ~ type_raised (kc y) ->
+  exists rs r, GenEn.apply_binary_rules x y None = Ok_ rs /\ In r rs /\ rcat r = Fun (kc y) bs (kc y) /\ labelled r l_conj y_conj.
+Proof. exact en_complete_conj. Qed.
+
+Theorem C03_en_complete_lp : forall x y, wf puncts x -> wf puncts y -> one_system x y -> punct_cat (kc x) ->
+  exists rs r, GenEn.apply_binary_rules x y None = Ok_ rs /\ In r rs /\ rcat r = kc y /\ labelled r l_lp y_lp.
+Proof. exact en_complete_lp. Qed.
+
+Theorem C03_en_complete_rp : forall x y, wf puncts x -> wf puncts y -> one_system x y -> punct_cat (kc y) ->
+  exists rs r, GenEn.apply_binary_rules x y None = Ok_ rs /\ In r rs /\ rcat r = kc x /\ labelled r l_rp y_rp.
+Proof. exact en_complete_rp. Qed.
+
+(* ---------- non-vacuity and readability: the names, the hypotheses, the statements on concrete values ---------- *)
+Example key_clear_is_nb : GenEn.key_clear = [[110; 98]].                 (* 'nb' *)
+Proof. reflexivity. Qed.
+Example listed_texts :
+  map show [c_comma; c_semi; c_conj; c_LQU; c_LRB; c_N; c_NP; c_S_dcl; c_Sem_Sem; c_NP_NP; c_Sng_NP; c_Spss_NP; c_Sdcl_Sdcl; c_VP_bs_VP; c_VP_sl_VP] =
+  [[44]; [59]; [99;111;110;106]; [76;81;85]; [76;82;66]; [78]; [78;80]; [83;91;100;99;108;93];
+   [83;91;101;109;93;92;83;91;101;109;93]; [78;80;92;78;80]; [83;91;110;103;93;92;78;80]; [83;91;112;115;115;93;92;78;80];
+   [83;91;100;99;108;93;47;83;91;100;99;108;93];
+   [40;83;92;78;80;41;92;40;83;92;78;80;41]; [40;83;92;78;80;41;47;40;83;92;78;80;41]].
+Proof. vm_compute. reflexivity. Qed.
+
+(* (S[X]\NP[nb])/NP[X]  applied to  NP[dcl]  =>  S[dcl]\NP  labelled fa: 'nb' erased, X instantiated from the argument *)
+Definition ex_x : cat := Fun (Fun (Atom n_S f_X) bs (Atom n_NP f_nb)) sl (Atom n_NP f_X).
+Definition ex_y : cat := Atom n_NP f_dcl.
+Example ex_wf : wf puncts ex_x /\ wf puncts ex_y /\ one_system ex_x ex_y.
+Proof.
+  split; [apply wfb_ok; vm_compute; reflexivity|]. split; [apply wfb_ok; vm_compute; reflexivity|].
+  split; apply unary_sysb_ok; vm_compute; reflexivity.
+Qed.
+Example ex_fires : GenEn.apply_binary_rules ex_x ex_y None =
+  Ok_ [{| rcat := Fun (Atom n_S f_dcl) bs (Atom n_NP FNone); op_string := l_fa; op_symbol := y_fa; head_is_left := true |}].
+Proof. vm_compute. reflexivity. Qed.
+(* the repaired generalised backward composition: a forward secondary functor no longer composes to its left *)
+Example ex_gbx_needs_backslash :
+  let S := Atom n_S FNone in let NP := Atom n_NP FNone in let PP := Atom [80;80] FNone in let VP := Atom [86;80] FNone in
+  GenEn.apply_binary_rules (Fun (Fun S sl NP) sl PP) (Fun VP sl S) None = Ok_ [] /\
+  GenEn.apply_binary_rules (Fun (Fun S sl NP) sl PP) (Fun VP bs S) None =
+    Ok_ [{| rcat := Fun (Fun VP sl NP) sl PP; op_string := l_gbx; op_symbol := y_bx; head_is_left := true |}].
+Proof. vm_compute. split; reflexivity. Qed.
+(* `not (y ^ "NP\\NP")` compares a category with a string and is always true: conj NP\NP yields both conj results
+   (accepted inside the schema: J_conj and J_conj_NP) *)
+Example ex_conj_both : GenEn.apply_binary_rules c_conj c_NP_NP None =
+  Ok_ [{| rcat := Fun c_NP_NP bs c_NP_NP; op_string := l_conj; op_symbol := y_conj; head_is_left := true |};
+       {| rcat := c_NP_NP; op_string := l_conj; op_symbol := y_conj; head_is_left := true |}].
+Proof. vm_compute. reflexivity. Qed.
+(* FINDING (reported, not counted against C03_bx_never_over_N_NP as stated): the N/NP restriction looks only at the argument
+   of the right functor after matching.  When that argument carries a feature the rule fires although the LEFT functor
+   composes over a bare NP:   NP[nb]/N  S[dcl]\NP[expl]  =>  S[dcl]/N  labelled bx   (en.py:92, en.py:121) *)
+Theorem C03_bx_left_functor_bare_refuted :
+  exists x y rs r, wf puncts x /\ wf puncts y /\ one_system x y /\ GenEn.apply_binary_rules x y None = Ok_ rs /\ In r rs /\
+                   op_string r = l_bx /\ exists b s c, kc x = Fun b s c /\ bare_N_NP b.
+Proof.
+  exists (Fun (Atom n_NP f_nb) sl c_N), (Fun c_S_dcl bs (Atom n_NP (FUn [101;120;112;108]))).
+  eexists. eexists. split; [apply wfb_ok; vm_compute; reflexivity|]. split; [apply wfb_ok; vm_compute; reflexivity|].
+  split; [split; apply unary_sysb_ok; vm_compute; reflexivity|]. split; [vm_compute; reflexivity|].
+  split; [left; reflexivity|]. split; [reflexivity|]. exists c_NP, sl, c_N. split; [vm_compute; reflexivity | right; reflexivity].
+Qed.
